@@ -604,8 +604,12 @@ any correct comparison sort (`string_sort_unstable`) returns. LIMIT OF THE TIE T
 U+0000–U+00FF the model's transliteration table (`translit`, `isAlnumU`) does not follow crate
 `any_ascii` (which transliterates every alphanumeric code point, `ā` ↦ `a`, `Ω` ↦ `O`): on
 `s("ā").s(b).s("Ω").s(z)` with `--an` the binary prints the order `ā b Ω z`, the model `Ω b z ā` (review 2).
-The agreement of `--an` with the binary is therefore claimed for Latin-1 labels only and was run on the
-harness's (ASCII) label pool only; `driver_world_faithful`'s "no assumption about an external world is
+SECOND LIMIT (third review, audit L1; ASCII labels suffice): the crate accumulates a digit run in a `u64`
+(`n1 = n1 * 10 + …`, wrapping in release builds), `CliM.NatLex.cmpGo` in an unbounded `Nat`: with
+`s(18446744073709551616).s(10000000000000000000).` and `--an --grd` the release binary prints the 2^64 label FIRST
+(it wraps to 0), the model second; with wrap-around the crate's comparator need not even be transitive.
+The agreement of `--an` with the binary is therefore claimed only for labels within Latin-1 whose digit runs stay
+below 2^64 (at most 19 digits) and was run on the harness's (ASCII) label pool only; `driver_world_faithful`'s "no assumption about an external world is
 left" concerns the theorem, not the fidelity of `NatLex` to the crate. -/
 
 /-- with `--an` the statements are printed in the order of the model of `natural_lexical_cmp`: a
@@ -710,6 +714,22 @@ theorem io_export_keeps_output {T : Type} (W : CliM.World T) (fuel : Nat) (io : 
   r2.fs == r1.fs && r2.refused && r2.out == r1.out &&
   r3.out == r1.out && r3.refused && r3.fs == r1.fs
 
+/-! third review (audit L1): kernel-checked instantiation of `store_world_faithful` (was `#guard` only) -/
+open CliM CliMP ParserM FromParser in
+/-- non-vacuity of `store_world_faithful` (kernel-checked hypotheses): the store world, hybrid arm, both
+search flags -/
+example : ∃ fuel, ∃ blocks : List Block,
+    runText storeWorld fuel ⟨.hybrid, { twoval := true, stm := true, stmng := true }, .none, .simple⟩ exText =
+      ⟨0, blocks.flatMap fun b => b.2.map (render [['b'], ['a']])⟩ ∧
+    blocks.map (·.1) = [.twoval, .stm, .stmng] := by
+  obtain ⟨F0, hF⟩ := halted_from_some_bound_on storeWorld storeWorldOK
+    ⟨.hybrid, { twoval := true, stm := true, stmng := true }, .none, .simple⟩ exFacts (by decide)
+    (by simp [VBOT]; decide) (fun _ => by decide) (fun _ h => by cases h) (fun _ => storeWorld_dump)
+  obtain ⟨blocks, h1, h2, _⟩ := store_world_faithful F0
+    ⟨.hybrid, { twoval := true, stm := true, stmng := true }, .none, .simple⟩ exText exFacts
+    exText_der (by decide) (by decide) (by simp [VBOT]; decide) (fun _ => by decide) (fun _ h => by cases h)
+    (hF F0 (Nat.le_refl _))
+  exact ⟨F0, blocks, h1, by rw [h2]; decide⟩
 
 end C15
 #print axioms C15.hybrid_arm_runs_the_verified_bridge
@@ -731,3 +751,7 @@ end C15
 #print axioms C15.library_arms_panic_on_special_labels
 #print axioms C15.io_without_options_is_runText
 #print axioms C15.io_export_keeps_output
+
+#print axioms C15.three_modes_print_same_sets_conditional
+#print axioms C15.natural_lexical_le_total_trans
+#print axioms C15.stmrew_loses_model_on_duplicate_condition
